@@ -189,6 +189,28 @@ def wl_infinity(ctx, config):
             if Xo is None or Yo is None: continue
             vcase(ctx, config, a, X, Xo, msg, Y, Yo, "crafted:" + cls)
 
+def wl_scripted_nonces(ctx, config):
+    """custom nonce function answering the main and the DLEQ request separately with boundary byte strings (0, n, n+1, 2n mod 2^256
+    does not fit, 2^256-1, 1, n-1): a string that reduces to the zero scalar must make encryption fail with a zeroed output, any
+    other must give exactly the model's bytes, which must verify"""
+    rng = ctx.rng
+    vals = [0, n, 1, n - 1, n + 1, 2**256 - 1, 2**256 - n, 2, rng.randrange(1, n)]
+    cases = [(a, b) for a in [None] + vals for b in [None] + vals if (a is not None or b is not None)]
+    rng.shuffle(cases)
+    for a_, b_ in ctx.mine(cases[:(60 if ctx.quick else len(cases))] if ctx.quick else cases):
+        d = rng.randrange(1, n); y = rng.randrange(1, n); X = mulG(d); Y = mulG(y); msg = pools.msg32(rng, 0.3); sk = b32(d)
+        Xo = pkobj(ctx, X, config); Yo = pkobj(ctx, Y, config)
+        if Xo is None or Yo is None: continue
+        mn = None if a_ is None else b32(a_); dn = None if b_ is None else b32(b_)
+        want = adaptor.encrypt(sk, Y, msg, None, main_nonce=mn, dleq_nonce=dn)
+        r = ctx.call("adaptor_encrypt", sk, Yo, msg, 4, None, mn, dn, config=config)
+        if r is None: continue
+        cls = "scripted_nonce:main=%s:dleq=%s" % ("default" if a_ is None else ("zero_scalar" if a_ % n == 0 else "value"), "default" if b_ is None else ("zero_scalar" if b_ % n == 0 else "value"))
+        ctx.ev("adaptor_encrypt", cls, True, sk, msg, mn or b'', dn or b'')
+        if not ctx.check(r.ret == (1 if want else 0) and r.b(1) == (want or bytes(162)), "adaptor_encrypt:%s:%s" % (cls, "bytes" if want else ("returned_1" if r.ret else "output_not_zero")),
+                         "main=%s dleq=%s want %s got %r" % (mn.hex() if mn else None, dn.hex() if dn else None, want.hex() if want else None, r), config): continue
+        if want: vcase(ctx, config, r.b(1), X, Xo, msg, Y, Yo, "scripted_nonce_output")
+
 def run(ctx):
     from vlib import smallgroup
     smallgroup.run(ctx, 'adaptor', {'adaptor_sp_reenc': 'accepted', 'adaptor_dleq_s_reenc': 'accepted', 'adaptor_decrypt_sp_reenc': 'accepted'})
@@ -197,4 +219,5 @@ def run(ctx):
         if ctx.quick and i > 0: continue          # quick: the 32-bit-limb build runs the pipeline (with its recover / verify mutations) only
         wl_chosen_sp(ctx, config)
         wl_infinity(ctx, config)
+        wl_scripted_nonces(ctx, config)
         wl_fail_paths(ctx, config)
